@@ -105,7 +105,7 @@ def run(tier, seed, replay=None):
         verdict = "either" if st["op"] == "none" else "reject"
         types = [c["type"] for c in st["pop"]]
         nm = [c["mesh"]["nslots"] for c in st["pop"]]
-        mutants.append(("vtkspec:%s@%d:%s%s" % (st["op"], st["at"], nm, types), verdict, xml0, render_vtk(f)))
+        mutants.append(("vtkspec:%s%s@%d:%s%s" % (st["op"], ("=%d" % st["arg"]) if st["op"] == "node_wrap" else "", st["at"], nm, types), verdict, xml0, render_vtk(f)))
         if st["op"] == "none" and len(st["pop"]) == 2 and base_vtk is None:
             base_vtk = render_vtk(f)
     # ---- XML value faults enumerated by TLC from the parameter schema
